@@ -16,6 +16,9 @@ type C11Case struct {
 	Twice bool   `json:"twice,omitempty"`
 	// FailAt, when > 0, is the explicit failing invocation (used by the grid; overrides KSel)
 	FailAt int `json:"fail_at,omitempty"`
+	// Scale: table t of the document is expanded to 200-320 rows (deep copies) by this recipe before anything runs:
+	// strategies that only large tables take (in-place filtering, chunking, pooling) must leave the input alone too
+	Scale *Scale `json:"scale,omitempty"`
 }
 
 func genC11(t *rapid.T) any {
@@ -26,6 +29,12 @@ func genC11(t *rapid.T) any {
 		c.KSel = rapid.IntRange(1, 12).Draw(t, "ksel")
 	}
 	c.Twice = rapid.IntRange(0, 3).Draw(t, "twice") == 0
+	if rows, _ := c.W.Doc["t"].([]any); len(rows) > 0 {
+		if sc := genScale(t, 14, "scale"); sc != nil {
+			sc.Rows = 200 + sc.Rows%121
+			c.Scale = sc
+		}
+	}
 	if rapid.IntRange(0, 7).Draw(t, "backrefkey") == 0 {
 		// the caller's own data may use the key name that the engine uses for its back reference
 		if rows, _ := c.W.Doc["t"].([]any); len(rows) > 0 {
@@ -86,6 +95,14 @@ func checkC11(c *C11Case) Result {
 	res := Result{}
 	if c.W == nil {
 		res.Discard = "empty case"
+		return res
+	}
+	if c.Scale != nil {
+		cc, w2 := *c, *c.W
+		w2.Doc = c.Scale.ExpandDoc(c.W.Doc, "t")
+		cc.W, cc.Scale = &w2, nil
+		res = checkC11(&cc)
+		res.Labels = append(res.Labels, "large-table")
 		return res
 	}
 	w := c.W
@@ -192,7 +209,7 @@ func init() {
 	Register(&Prop{
 		ID:    "C11",
 		Title: "Queries never modify the caller's input document",
-		Rule: "rapid draws a document (rows with scalar columns and a nested array of objects, second table) and a query from the 47 wide construct " +
+		Rule: "rapid draws a document (rows with scalar columns and a nested array of objects, second table; about 2% of the cases expand table t to 200-320 rows) and a query from the 47 wide construct " +
 			"templates (filters, CASE, IN, BETWEEN, functions, GROUP BY/HAVING/aggregates, all join kinds (both, one or no side aliased), CTEs incl. un-Wrapped WITH, a CTE used " +
 			"twice and WITH clauses inside derived tables / join sides / subqueries / EXISTS / other CTEs, derived tables, select-item / IN / [NOT] EXISTS subqueries on the row and on `<-`, UNION chains, UNION / UNION ALL of 2-3 arms with select lists from {*, plain columns, computed} over either table or the nested array, each optionally parenthesised with its own WHERE / ORDER BY / LIMIT [OFFSET] window, at top level / as a CTE body / in a derived table (C11 only), ORDER BY/LIMIT, DISTINCT, nested " +
 			"FROM, star + subquery, matrices read through multi-dimensional bracket selectors, FUSE over objects of the document), with Wrapped on 1/4 of the cases; in 1/3 of the cases an injected function fails at a generated invocation " +
